@@ -106,6 +106,9 @@ class EvalNodeArm(Arm):
     name = "eval_node"
     budget = {"quick": 5000, "thorough": 60000}
     min_per_shard = 60
+    #: (shards, cases per shard) of coverage-guided fuzzing (atheris) over the same strategy and oracle
+    fuzz = {"quick": (2, 400), "thorough": (8, 8000)}
+    fuzz_modules = ("pyrates.backend.parser", "pyrates.backend.computegraph")
 
     def strategy(self, ctx):
         return expr_case()
